@@ -1,6 +1,7 @@
 (** C07 - buffered channel configuration reaches the device exactly at write time. *)
-From Coq Require Import ZArith List Bool.
+From Coq Require Import ZArith List Bool String.
 From NX Require Import Config Config_proofs.
+From NX Require Bytes Frame Request Request_proofs PyLite Src_all Src_records_proofs Src_config_base Src_config_req Src_config_write Src_config_proofs.
 Import ListNotations.
 Open Scope Z_scope.
 
@@ -46,6 +47,62 @@ Theorem C07_no_div_when_unsupported : forall ops s,
   forallb (fun r => negb (is_div_req r)) (d_log (snd (run s ops))) = true.
 Proof. exact never_div_when_unsupported. Qed.
 
+(** ** the client side of the model IS comm.py as it is now: the regenerated abstract syntax of
+    the configuration methods of CommHandler, run by the PyLite interpreter on a handler whose
+    link records what is written ([w]) and whose frame queue hands out scripted answers
+    (stubs of tools/harness/prelude_py.py, translated with the rest; [answer_items]: Ack = an
+    ACK frame with code 0, Nack r = an ACK frame with code r, lost request / lost ack = a
+    time-out; nothing is awaited when the device has no ACK support).  [comm c dev w q] is
+    the handler whose DCommChannelsData is the model client [c] and whose own mirror of the
+    device is [dev]; of the model's device only the two capability flags are used - what the
+    bytes written mean AT the device is C05. *)
+Section OnSource.
+Import PyLite Src_all Src_records_proofs Src_config_base Src_config_req Src_config_write Src_config_proofs.
+Open Scope string_scope.
+Open Scope list_scope.
+
+(** setters touch nothing but the requested vector: nothing is written, the queue is untouched *)
+Theorem C07_enable_src : forall n c d dev w q cs,
+  in_range (en_new c) cs ->
+  call_method program (1 + n) (comm c dev w q) "ch_enable" [PList (map PInt (map Z.of_nat cs))] =
+  PyLite.Ok (PNone, comm (fst (step (c, d) (OpEnable cs))) dev w q).
+Proof. exact ch_enable_model. Qed.
+
+Theorem C07_default_src : forall n c d flags rxp chans w q,
+  List.length (en_new c) = List.length chans ->
+  call_method program (3 + n) (comm c (dev_obj flags rxp chans) w q) "channels_default_cfg" [] =
+  PyLite.Ok (PNone, comm (fst (step (c, d) OpDefault)) (dev_obj flags rxp chans) w q).
+Proof. exact channels_default_cfg_model. Qed.
+
+(** channels_write: the requests chosen by the model (single / full vector, divider first and only
+    if supported) are written as the bytes of Request.frame_div / frame_enable, the answers are
+    consumed, the view and the mirror advance exactly when the model says so - for every
+    device size 1..255, every buffered state, every pair of answers *)
+Theorem C07_write_src : forall n c d flags rxp chans w a1 a2 rest,
+  List.length (en_new c) = List.length (en_now c) ->
+  List.length (div_new c) = List.length (div_now c) ->
+  List.length (en_new c) = List.length chans -> List.length (div_new c) = List.length chans ->
+  1 <= Bytes.zlen chans <= 255 -> Request_proofs.all_u8 (div_new c) ->
+  d_div_supported d = div_sup flags -> d_ack_supported d = ack_sup flags ->
+  wf_answer a1 -> wf_answer a2 ->
+  exists b1 b2,
+    Request.frame_div (div_request c) (Bytes.zlen chans) = Frame.Ok b1 /\
+    Request.frame_enable (en_request c) (Bytes.zlen chans) = Frame.Ok b2 /\
+    call_method program (6 + n)
+      (comm c (dev_obj flags rxp chans) w
+         (map item_pv ((if div_sup flags then answer_items (ack_sup flags) a1 else [])
+                         ++ answer_items (ack_sup flags) a2 ++ rest)))
+      "channels_write" [] =
+    PyLite.Ok (PNone,
+               comm (fst (step (c, d) (OpWrite a1 a2)))
+                    (dev_obj flags rxp
+                       (mirror_en (ack_ok (ack_sup flags) a2)
+                          (if div_sup flags then mirror_div (ack_ok (ack_sup flags) a1) chans (div_new c) else chans)
+                          (en_new c)))
+                    (w ++ (if div_sup flags then [b1; b2] else [b2])) (map item_pv rest)).
+Proof. exact channels_write_model. Qed.
+End OnSource.
+
 Example C07_example :
   let s := run (connected [false; false; false] [0; 0; 0] true true)
                [OpEnable [1%nat]; OpDivider [0%nat; 2%nat] 200; OpWrite Ack Ack] in
@@ -58,3 +115,4 @@ Print Assumptions C07_no_early_effect.
 Print Assumptions C07_write_syncs.
 Print Assumptions C07_idempotent.
 Print Assumptions C07_no_div_when_unsupported.
+Print Assumptions C07_write_src.
